@@ -427,7 +427,7 @@ Diverged == Obs(v) # GObs(g)
 Log(op, args, s, gg) ==
   hist' = Append(hist, [op |-> op, args |-> args, res |-> s.res, must |-> gg.must,
                         exp |-> GObs(gg), impl |-> Obs(s), dev |-> gg.dev,
-                        pages |-> IF Raw THEN <<>> ELSE s.dpages, dlen |-> s.dlen, oob |-> s.oob])
+                        pages |-> IF Raw THEN <<>> ELSE s.dpages, dlen |-> s.dlen, slen |-> s.storedLen, oob |-> s.oob])
 
 LastK(op, args) == LET l == Append(g.last, <<op, args>>) IN
                    IF Len(l) > HistK THEN SubSeq(l, Len(l) - HistK + 1, Len(l)) ELSE l
